@@ -169,31 +169,39 @@ def run(ctx, params):
                 ctx.check('C19.edge_connected', s_or(s_and(c == a, other == qb), s_and(c == b, other == qa)), info)
         return
     if part == 'unique':
+        # elements that are equal exactly when their keys are, but remain distinguishable (like EdgeIDObj(a, b) and EdgeIDObj(b, a)):
+        # the occurrence index travels with the element, in the symbolic run and in the concrete replay alike
         n = params['n']
-        seq = [ctx.int_(f's{i}') for i in range(n)]
+        seq = [_El(ctx.int_(f's{i}'), i) for i in range(n)]
         out = unique_in_order(seq)
         ctx.observe('len', len(out))
-        if ctx.mode == 'conc':
-            exp = []
-            for x in seq:
-                if x not in exp:
-                    exp.append(x)
-            ctx.check('C19.unique.order', True)
-            ctx.check('C19.unique.kept', out == exp)
-            ctx.check('C19.unique.dropped', True)
-            return
-        # identity of result elements against the inputs (first occurrence is the *object* kept)
-        pos = []
-        for o in out:
-            idx = [i for i, s in enumerate(seq) if s is o]
-            pos.append(idx[0] if idx else -1)
+        pos = [o.i if isinstance(o, _El) else -1 for o in out]
+        ctx.observe('kept_positions', pos)
         ctx.check('C19.unique.order', all(p >= 0 for p in pos) and pos == sorted(pos) and len(set(pos)) == len(pos), {'positions': pos})
         kept = set(pos)
-        ctx.check('C19.unique.kept', s_and(*[s_and(*[seq[j] != seq[i] for j in range(i)]) for i in kept]), {'seq': seq, 'kept': sorted(kept)})
-        ctx.check('C19.unique.dropped', s_and(*[s_or(*[seq[j] == seq[i] for j in range(i)]) for i in range(n) if i not in kept]),
-                  {'seq': seq, 'kept': sorted(kept)})
+        ctx.check('C19.unique.kept', s_and(*[s_and(*[seq[j].k != seq[i].k for j in range(i)]) for i in kept if i >= 0]), {'seq': [e.k for e in seq], 'kept': sorted(kept)})
+        ctx.check('C19.unique.dropped', s_and(*[s_or(*[seq[j].k == seq[i].k for j in range(i)]) for i in range(n) if i not in kept]),
+                  {'seq': [e.k for e in seq], 'kept': sorted(kept)})
         return
     raise ValueError(part)
+
+
+class _El:
+    """Sequence element for unique_in_order: equality and hash by key, identity by occurrence index."""
+    def __init__(self, k, i):
+        self.k, self.i = k, i
+
+    def __eq__(self, other):
+        return isinstance(other, _El) and (self.k == other.k)
+
+    def __ne__(self, other):
+        return not isinstance(other, _El) or (self.k != other.k)
+
+    def __hash__(self):
+        return hash(self.k)
+
+    def __repr__(self):
+        return f"El({self.k}#{self.i})"
 
 
 def _nv(n):
